@@ -753,7 +753,12 @@ pub fn generate(seed: u64, o: &GenOpts) -> Scenario {
     let lag_c = lag(&client);
     let lag_s = lag(&server);
     let lag_max = lag_c.min(lag_s);
-    let push_ok = client.enable_push != Some(false);
+    // (settings focus: a server application may try to push although the client disabled push - the API must refuse,
+    // nothing may reach the wire; the client often spells out the default window next to ENABLE_PUSH=0)
+    if focus == Focus::Settings && client.enable_push == Some(false) && rng.chance(1, 2) {
+        client.initial_window_size = Some(65_535);
+    }
+    let push_ok = client.enable_push != Some(false) || (focus == Focus::Settings && rng.chance(2, 3));
     let mut streams = Vec::new();
     let mut next_idx = 1u32;
     for _ in 0..n_streams {
